@@ -116,3 +116,13 @@ package abci
 //@   precall abciMux\)\.executeProposal$ :: forall j int :: 0 <= j && j < len(lastCommit.Votes) ==> bytesId(lastCommit.Votes[j].Validator.Address) == bytesId(req.LocalLastCommit.Votes[j].Validator.Address)
 //@   precall abciMux\)\.executeProposal$ :: header.Height == req.Height && header.Time == req.Time && bytesId(header.ProposerAddress) == bytesId(req.ProposerAddress) && bytesId(header.NextValidatorsHash) == bytesId(req.NextValidatorsHash)
 //@   note the commit info handed to the proposal execution has one entry per vote of the local last commit (same validator, same signed flag, same order) and the header carries the request's height, time, proposer and next-validators hash: what the proposer executes is what validators and replaying nodes execute for the same block
+
+// ---- application dispatch order (C01): lexicographic by name, never map order ----
+
+//@ func abciMux.rebuildAppLexOrdering
+//@   props C01
+//@   requires mux != nil
+//@   loop 2 invariant len(mux.appsByLexOrder) == idx() && ordDet(appOrder)
+//@   loop 2 invariant forall j int :: 0 <= j && j < idx() ==> mux.appsByLexOrder[j] == mux.appsByName[appOrder[j]]
+//@   ensures-local ordDet(appOrder) && len(mux.appsByLexOrder) == len(appOrder) && (forall j int :: 0 <= j && j < len(appOrder) ==> mux.appsByLexOrder[j] == mux.appsByName[appOrder[j]])
+//@   note the dispatch list is the image of the SORTED name list under appsByName: its order is a function of the set of registered applications
